@@ -33,7 +33,7 @@ def plan(tier):
                 'every (offset, maximum) class; the answer is compared with a shadow model and pages '
                 'with the unpaged answer; a cell is (filter attribute set, requester class, result size '
                 'class, paging class)',
-        'min_monitor': {'locates_on_changed_values': 300, 'changes_between_locates': 200, 'locates_compared_with_model': 800, 'pages_compared': 200, 'nonempty_results': 100},
+        'min_monitor': {'locates_with_a_storage_status_mask': 1000, 'locates_on_changed_values': 300, 'changes_between_locates': 200, 'locates_compared_with_model': 800, 'pages_compared': 200, 'nonempty_results': 100},
         'assumptions': ['filters on attributes the server does not store (Activation Date ...) are C13\'s '
                         'concern and are not generated here',
                         'ties in Initial Date may appear in any order that is stable across pages',
@@ -309,7 +309,13 @@ def run_case(ctx, case):
                 def mk():
                     return [filter_attr(fn, v) for fn, v in filt]
                 try:
-                    req = rig.encode_request(rig.build_request(version, [op_locate(mk())]), version)
+                    # where the objects are stored is part of the question too: online, or online and archived (this server
+                    # archives nothing, so both mean every object; "archived only" is left out - the unchanged server ignores
+                    # the mask, which the property does not decide)
+                    storage = rng.choice((None, None, 1, 3))
+                    if storage is not None:
+                        ctx.count('locates_with_a_storage_status_mask')
+                    req = rig.encode_request(rig.build_request(version, [op_locate(mk(), storage=storage)]), version)
                     rig.decode_request(req)
                 except Exception:
                     ctx.count('locate_not_encodable')
@@ -388,7 +394,7 @@ def run_case(ctx, case):
                             off = rng.choice((None, 0, 1, 2, len(got), len(got) + 3, max(0, len(got) - 1)))
                             mx = rng.choice((None, 0, 1, 2, 3, len(got), len(got) + 5))
                             try:
-                                pr = srv.send([op_locate(mk(), maximum=mx, offset=off)], ident, pv_)
+                                pr = srv.send([op_locate(mk(), maximum=mx, offset=off, storage=rng.choice((None, None, 3)))], ident, pv_)
                             except Exception:
                                 pr = None
                             if full is not None and pr is not None and pr.ok():
